@@ -481,6 +481,9 @@ class VerifyAttrs(object):
 
         dim = attrs["dimension"]
         if dim:
+            if not isinstance(dim, str):
+                raise RuntimeError(
+                    "dimension attribute must have a value.")
             try:
                 declast.check_dimension(dim, metaattrs)
             except RuntimeError:
@@ -2009,6 +2012,9 @@ def check_implied_attrs(context, decls):
     for decl in decls:
         expr = decl.attrs["implied"]
         if expr:
+            if not isinstance(expr, str):
+                raise RuntimeError(
+                    "implied attribute must have a value.")
             check_implied(context, expr, decls)
 
 
